@@ -279,6 +279,8 @@ static void zero_check(Block* b, const uint8_t* p, size_t from, size_t to, const
   else for_touched_ranges(&tmp, to, chk);
 }
 
+bool g_busy_pub(int slot) { return slot >= 0 && slot < (int)H.slots.size() && g_busy[slot] != 0; }
+
 static void do_alloc(const Op& op) {
   int s = op.slot;
   if ((op.flags & OPF_WAIT) && s >= 0 && s < (int)H.slots.size()) while (H.slots[s] != nullptr || g_busy[s]) { if (!sched_wait(0x51070000ull + (uint64_t)s)) break; }
